@@ -14,6 +14,9 @@ import (
 	"verif/harness/hx"
 )
 
+// base tolerance (ms) the model grants per scheduling hop in a clocked case; the measured scheduling latency of the run is added
+const clockSlackMs = 250
+
 func exec(which int, cs hx.Sx) hx.Sx { return batchdrv.RunCase(cs) }
 
 type job struct {
@@ -28,8 +31,39 @@ func gen(c *hmain.Ctx) {
 	var jobs []*job
 	add := func(stream string, cs hx.Sx) { jobs = append(jobs, &job{stream: stream, cs: cs}) }
 	nextID := 0
+	// sizeMode of one adder script: 0 = every event has Size >= 1 (events taken from the event pool: Size = len(bytes)),
+	// 1 = every event has Size 0 (children built by processor.Spawn for `split`, time-out events: Size is never set),
+	// 2 = mixed, 3 = a run of zero-size events first, then sized ones
+	sizeOf := func(mode, i, n, maxSize int) int {
+		switch mode {
+		case 1:
+			return 0
+		case 2:
+			if r.Chance(1, 2) {
+				return 0
+			}
+		case 3:
+			if 2*i < n+1 {
+				return 0
+			}
+		}
+		return r.Range(1, maxSize)
+	}
+	pickSizeMode := func() int {
+		switch r.Intn(8) {
+		case 0, 1:
+			return 1
+		case 2, 3:
+			return 2
+		case 4:
+			return 3
+		}
+		return 0
+	}
 	mkAdder := func(n int, maxSize int, sleeps bool, parents bool) hx.Sx {
 		var ops []hx.Sx
+		mode := pickSizeMode()
+		c.W.Count(fmt.Sprintf("adder size mode %d (0 sized, 1 all zero-size, 2 mixed, 3 zero-size head)", mode))
 		for i := 0; i < n; i++ {
 			nextID++
 			kind := 0
@@ -38,7 +72,11 @@ func gen(c *hmain.Ctx) {
 			} else if parents && r.Chance(1, 6) {
 				kind = 1 // child
 			}
-			ops = append(ops, hx.L(hx.I(0), hx.I(nextID), hx.I(r.Range(1, maxSize)), hx.I(kind)))
+			sz := sizeOf(mode, i, n, maxSize)
+			if sz == 0 && kind == 0 && r.Chance(1, 2) {
+				kind = 1 // what Spawn builds: a child without a Size
+			}
+			ops = append(ops, hx.L(hx.I(0), hx.I(nextID), hx.I(sz), hx.I(kind)))
 			if sleeps && r.Chance(1, 5) {
 				ops = append(ops, hx.L(hx.I(1), hx.I(r.Range(1, 40))))
 			}
@@ -53,6 +91,10 @@ func gen(c *hmain.Ctx) {
 		return hx.L(p...)
 	}
 	nofail := func() int { return 0 }
+	// every generated case is CLOCKED: stop tuple (mode (arg 0 0 maintenanceMs clockSlackMs)), see batchdrv
+	stopSx := func(mode, arg, maintMs int) hx.Sx {
+		return hx.L(hx.I(mode), hx.L(hx.I(arg), hx.I(0), hx.I(0), hx.I(maintMs), hx.I(clockSlackMs)))
+	}
 	cfgSx := func(w, cnt, bytes, flush int, retriable bool, retry int, dq bool, dqw, dqc int) hx.Sx {
 		return hx.L(hx.I(w), hx.I(cnt), hx.I(bytes), hx.I(flush), hx.Bool(retriable), hx.I(retry), hx.Bool(dq), hx.I(dqw), hx.I(dqc))
 	}
@@ -62,7 +104,7 @@ func gen(c *hmain.Ctx) {
 		w := r.Range(2, 4)
 		cnt := r.Range(1, 4)
 		plan := hx.L(hx.L(hx.I(r.Range(30, 80)), hx.I(0)), hx.L(hx.I(0), hx.I(0)), hx.L(hx.I(r.Range(0, 30)), hx.I(0)))
-		add("later-first", hx.L(cfgSx(w, cnt, 0, 30, false, 0, false, 0, 0), hx.L(mkAdder(cnt*r.Range(3, 6), 10, false, false)), plan, hx.L(hx.I(0), hx.I(0))))
+		add("later-first", hx.L(cfgSx(w, cnt, 0, 30, false, 0, false, 0, 0), hx.L(mkAdder(cnt*r.Range(3, 6), 10, false, false)), plan, stopSx(0, 0, 0)))
 	}
 	// 2. random: workers 1..4, count/byte limits, several concurrent adders, idle gaps, child/parent kinds
 	for i := 0; i < 120*c.Scale; i++ {
@@ -77,12 +119,12 @@ func gen(c *hmain.Ctx) {
 		for a := 0; a < na; a++ {
 			adders = append(adders, mkAdder(r.Range(1, 25), 30, r.Bool(), r.Chance(1, 3)))
 		}
-		add("random", hx.L(cfgSx(w, cnt, bytes, r.Range(5, 60), false, 0, false, 0, 0), hx.L(adders...), mkPlan(40, 25, nofail), hx.L(hx.I(0), hx.I(0))))
+		add("random", hx.L(cfgSx(w, cnt, bytes, r.Range(5, 60), false, 0, false, 0, 0), hx.L(adders...), mkPlan(40, 25, nofail), stopSx(0, 0, 0)))
 	}
 	// 3. idle flush: fewer events than the count limit, no further arrivals
 	for i := 0; i < 30*c.Scale; i++ {
 		nextID = 0
-		add("idle-flush", hx.L(cfgSx(r.Range(1, 3), r.Range(5, 9), 0, r.Range(5, 80), false, 0, false, 0, 0), hx.L(mkAdder(r.Range(1, 4), 10, false, false)), hx.L(), hx.L(hx.I(0), hx.I(0))))
+		add("idle-flush", hx.L(cfgSx(r.Range(1, 3), r.Range(5, 9), 0, r.Range(5, 80), false, 0, false, 0, 0), hx.L(mkAdder(r.Range(1, 4), 10, false, false)), hx.L(), stopSx(0, 0, 0)))
 	}
 	// 4. Stop concurrent with adders
 	for i := 0; i < 60*c.Scale; i++ {
@@ -92,12 +134,12 @@ func gen(c *hmain.Ctx) {
 		for a := 0; a < na; a++ {
 			adders = append(adders, mkAdder(r.Range(5, 40), 10, r.Chance(1, 3), false))
 		}
-		add("stop-race", hx.L(cfgSx(r.Range(1, 3), r.Range(1, 3), 0, 20, false, 0, false, 0, 0), hx.L(adders...), mkPlan(20, 3, nofail), hx.L(hx.I(1), hx.I(r.Intn(6)))))
+		add("stop-race", hx.L(cfgSx(r.Range(1, 3), r.Range(1, 3), 0, 20, false, 0, false, 0, 0), hx.L(adders...), mkPlan(20, 3, nofail), stopSx(1, r.Intn(6), 0)))
 	}
 	// 5. directed: Stop placed between mu.Unlock and the channel send of a sealing Add (gate)
 	for i := 0; i < 10*c.Scale; i++ {
 		nextID = 0
-		add("stop-in-window", hx.L(cfgSx(r.Range(1, 3), 1, 0, 20, false, 0, false, 0, 0), hx.L(mkAdder(r.Range(1, 3), 10, false, false)), hx.L(), hx.L(hx.I(2), hx.I(r.Intn(3)))))
+		add("stop-in-window", hx.L(cfgSx(r.Range(1, 3), 1, 0, 20, false, 0, false, 0, 0), hx.L(mkAdder(r.Range(1, 3), 10, false, false)), hx.L(), stopSx(2, r.Intn(3), 0)))
 	}
 	// 6. flush time-out at or above the 100 ms heartbeat (production defaults: 200 ms .. 1 s; the older streams stay below
 	//    80 ms, where the very first tick after the Add already finds the batch due).  Here a partly filled batch is looked at
@@ -107,14 +149,20 @@ func gen(c *hmain.Ctx) {
 	//    (LTS guard) or never a Seal (LStuck 3, monitor m_not_stuck); oracle 'idle-flush-lag' bounds the wait from above
 	for i := 0; i < 14*c.Scale; i++ {
 		nextID = 0
-		add("idle-flush-slow", hx.L(cfgSx(r.Range(1, 3), r.Range(5, 9), 0, r.Range(100, 400), false, 0, false, 0, 0), hx.L(mkAdder(r.Range(1, 4), 10, false, false)), hx.L(), hx.L(hx.I(0), hx.I(0))))
+		add("idle-flush-slow", hx.L(cfgSx(r.Range(1, 3), r.Range(5, 9), 0, r.Range(100, 400), false, 0, false, 0, 0), hx.L(mkAdder(r.Range(1, 4), 10, false, false)), hx.L(), stopSx(0, 0, 0)))
 	}
 	//    directed "two ticks": one or two events added 0 / 30 / 60 / 120 ms after the start, time-outs 150 / 250 / 350 ms
 	for _, flush := range []int{150, 250, 350} {
 		for _, wait := range []int{0, 30, 60, 120} {
-			nextID = 0
-			adder := hx.L(hx.L(hx.I(1), hx.I(wait)), hx.L(hx.I(0), hx.I(1), hx.I(3), hx.I(0)), hx.L(hx.I(1), hx.I(wait/2)), hx.L(hx.I(0), hx.I(2), hx.I(4), hx.I(0)))
-			add("two-ticks", hx.L(cfgSx(1+wait%2, 5, 0, flush, false, 0, false, 0, 0), hx.L(adder), hx.L(), hx.L(hx.I(0), hx.I(0))))
+			for _, sz := range [][2]int{{3, 4}, {0, 0}, {0, 4}} { // sized; zero-size children (kind 1); zero-size head
+				nextID = 0
+				kind := 0
+				if sz[0] == 0 {
+					kind = 1
+				}
+				adder := hx.L(hx.L(hx.I(1), hx.I(wait)), hx.L(hx.I(0), hx.I(1), hx.I(sz[0]), hx.I(kind)), hx.L(hx.I(1), hx.I(wait/2)), hx.L(hx.I(0), hx.I(2), hx.I(sz[1]), hx.I(0)))
+				add("two-ticks", hx.L(cfgSx(1+wait%2, 5, 0, flush, false, 0, false, 0, 0), hx.L(adder), hx.L(), stopSx(0, 0, 0)))
+			}
 		}
 	}
 	// 7. the MaintenanceFn hook (batch.go work(): after commitBatch, once MaintenanceInterval has passed; elasticsearch,
@@ -129,9 +177,63 @@ func gen(c *hmain.Ctx) {
 			adders = append(adders, mkAdder(r.Range(3, 20), 30, true, r.Chance(1, 3)))
 		}
 		add("maintenance", hx.L(cfgSx(r.Range(1, 4), r.Range(1, 4), 0, r.Range(5, 40), false, 0, false, 0, 0), hx.L(adders...), mkPlan(30, 10, nofail),
-			hx.L(hx.I(0), hx.L(hx.I(0), hx.I(0), hx.I(0), hx.I(r.Range(1, 20))))))
+			stopSx(0, 0, r.Range(1, 20))))
 	}
-	runJobs(c, jobs)
+	// 8. PACED arrivals: events keep arriving every g ms (g well below the flush time-out) for ~2.2 s = dozens of flush time-outs,
+	//    and neither limit of the batch is ever reached (count limit 1000, or only a byte limit the sizes never add up to): the
+	//    time-out is the ONLY thing that flushes, and it must count from the FIRST Add into the empty batch, whatever arrives
+	//    later and whatever the sizes are (zero-size events: children of `split` built by processor.Spawn, time-out events).
+	//    A regression that restarts batch.startTime on a later Add (every Add, every Add while eventsSize == 0, every tick that
+	//    finds the batch not due, ...) never seals while the traffic lasts: the first event waits the whole 2.2 s.  Judged by the
+	//    model from the driver's clock: monitor m_handoff (every event: Add label -> OutBegin label of its batch) and the
+	//    timed LTS of Model/BatcherAge.v (a NotReady decision on a batch whose OLDEST event is older than the time-out is refused).
+	//    The cases are put first: they run next to all the others.
+	var paced []*job
+	pacedCase := func(w, cnt, bytes, flush, gap, total, sizeMode, nAdders, kindMode int) {
+		nextID = 0
+		scripts := make([][]hx.Sx, nAdders)
+		n := total / gap
+		for i := 0; i < n; i++ {
+			nextID++
+			kind := 0
+			sz := sizeOf(sizeMode, i, n, 30)
+			if kindMode == 1 || (kindMode == 2 && sz == 0) {
+				kind = 1
+			}
+			a := i % nAdders
+			scripts[a] = append(scripts[a], hx.L(hx.I(0), hx.I(nextID), hx.I(sz), hx.I(kind)), hx.L(hx.I(1), hx.I(gap*nAdders)))
+		}
+		var adders []hx.Sx
+		for a := range scripts {
+			if a > 0 { // the adders take turns: adder a starts a*gap later
+				scripts[a] = append([]hx.Sx{hx.L(hx.I(1), hx.I(a*gap))}, scripts[a]...)
+			}
+			adders = append(adders, hx.L(scripts[a]...))
+		}
+		c.W.Count(fmt.Sprintf("paced: size mode %d", sizeMode))
+		paced = append(paced, &job{stream: "paced", cs: hx.L(cfgSx(w, cnt, bytes, flush, false, 0, false, 0, 0), hx.L(adders...), hx.L(), stopSx(0, 0, 0))})
+	}
+	// directed: the shape of an output behind `split` (zero-size children every 30 ms, time-out 150 ms, count limit far away);
+	// all-zero sizes with only a byte limit; a zero-size head followed by sized events
+	pacedCase(2, 1000, 0, 150, 30, 2200, 1, 1, 1)
+	pacedCase(1, 0, 4096, 40, 10, 2200, 1, 1, 2)
+	pacedCase(2, 1000, 0, 50, 12, 2200, 3, 2, 2)
+	pacedCase(1, 1000, 1<<20, 60, 20, 2200, 0, 1, 0)
+	for i := 0; i < 8*c.Scale; i++ {
+		cnt, bytes := 1000, 0
+		switch r.Intn(3) {
+		case 0:
+			cnt, bytes = 0, 1<<20
+		case 1:
+			bytes = 1 << 20
+		}
+		flush := r.Range(30, 70)
+		if r.Chance(1, 4) {
+			flush = r.Range(100, 160)
+		}
+		pacedCase(r.Range(1, 3), cnt, bytes, flush, r.Range(flush/6+2, flush/2), 2200, []int{1, 1, 1, 2, 2, 3, 3, 0}[r.Intn(8)], r.Range(1, 2), r.Intn(3))
+	}
+	runJobs(c, append(paced, jobs...))
 }
 
 // stats + the timing oracle of "bounded staleness": a batch sealed by time-out was sealed within FlushTimeout + one heartbeat
@@ -144,7 +246,7 @@ func timing(c *hmain.Ctx, j *job) {
 	if j.tm.Cfg.FlushMs >= 100 {
 		c.W.Count("flush time-out >= 100 ms heartbeat")
 	}
-	seen, tick := 0, false
+	seen, tick, pendingTimeoutSeal := 0, false, false
 	for _, l := range hx.Items(j.obs) {
 		o := hx.Items(l)
 		if hx.Int(o[0]) != 0 {
@@ -154,14 +256,26 @@ func timing(c *hmain.Ctx, j *job) {
 		case k == 11:
 			tick = true
 			continue
-		case k == 2:
+		case k == 2 || k == batchdrv.LClock || k == batchdrv.LJitter:
 			continue
 		case k == 15 && hx.Int(o[2]) > 0 && tick: // a heartbeat tick found a non-empty batch not yet due
 			seen++
+		case k == 1: // Add
+			if pendingTimeoutSeal {
+				c.W.Count("batch sealed by time-out while arrivals continue (an Add follows)")
+				pendingTimeoutSeal = false
+			}
+			if hx.Int(o[4]) == 0 {
+				c.W.Count("Add of a zero-size event")
+			}
 		case k == 3: // Seal
 			if hx.Int(o[4]) == 2 && seen >= 2 {
 				c.W.Count("batch sealed by time-out after >= 2 ticks had found it not yet due")
 			}
+			if hx.Int(o[4]) == 2 && hx.Int(o[5]) == 0 && hx.Int(o[3]) >= 2 {
+				c.W.Count("batch of >= 2 zero-size events (eventsSize 0) sealed by time-out")
+			}
+			pendingTimeoutSeal = hx.Int(o[4]) == 2
 			seen = 0
 		case k == batchdrv.LMaint && hx.Int(o[2]) == 1:
 			c.W.Count("maintenance hook ran")
@@ -192,6 +306,6 @@ func runJobs(c *hmain.Ctx, jobs []*job) {
 
 func main() {
 	hmain.Run(&hmain.Prop{ID: "C08",
-		Rule: "each case = (batcher config, per-goroutine Add/sleep scripts, OutFn delay plan, Stop placement) run on the real Batcher; observable = the full label trace (verifTrace sites inside the critical sections + Controller.Commit calls + recovered panics). Streams idle-flush-slow / two-ticks: flush time-out 100..400 ms (>= the 100 ms heartbeat); maintenance: the stop tuple's arg is (arg 0 0 maintenanceMs). Every case is non-trivial (>= 1 Add); distinct = distinct case text.",
+		Rule: "each case = (batcher config, per-goroutine Add/sleep scripts, OutFn delay plan, Stop placement) run on the real Batcher; observable = the full label trace (verifTrace sites inside the critical sections + Controller.Commit calls + recovered panics) + the driver's clock: entry (0 108 us) = scheduling latency measured by an independent 1 ms sleeper during the case, entries (0 107 us) = time at which the following Add / Seal / Take / OutBegin / NotReady label was logged; the stop tuple is (mode (arg 0 0 maintenanceMs clockSlackMs)). Event sizes: every adder script is all-sized, all zero-size (Size 0: children of split, time-out events), mixed, or zero-size head. Stream paced: arrivals every g ms (g < flush time-out) for 2.2 s with limits never reached. Streams idle-flush-slow / two-ticks: flush time-out 100..400 ms (>= the 100 ms heartbeat); maintenance: the stop tuple's arg is (arg 0 0 maintenanceMs). Every case is non-trivial (>= 1 Add); distinct = distinct case text.",
 		Gen: gen, Exec: exec})
 }
